@@ -130,14 +130,14 @@ def check_idx(ctx, obs, uniaxial):
         # --- frame
         sm = rot(frac_of_hex(o["ct"]), frac_of_hex(o["cp"]), d)
         ferr = max(abs(float(hp.D(a) - b)) for a, b in zip(s, sm))
-        if ferr > 1e-15:
+        if ferr > 4e-15:        # 3 products of rounded sines/cosines per component: worst case ~1.3e-15, measured <= 2.5e-16
             ctx.violation("S5", f"{o['id']}: to_crystal_frame differs from Rz(phi)Ry(theta)·d by {ferr:.2e}",
                           {"kind": "frame"}, dict(rep, error=ferr))
         if o["gen"] == "pump":
             st, c_t = hp.sin_cos(frac_of_hex(o["ct"]))
             sp, c_p = hp.sin_cos(frac_of_hex(o["cp"]))
             perr = max(abs(float(hp.D(a) - b)) for a, b in zip(s, [st * c_p, st * sp, c_t]))
-            if perr > 1e-15:
+            if perr > 4e-15:
                 ctx.violation("S5", f"{o['id']}: a pump along z does not get crystal-frame polar angles (theta, phi): off by {perr:.2e}",
                               {"kind": "pump_frame"}, dict(rep, error=perr))
         # --- finite, positive
@@ -169,8 +169,10 @@ def check_idx(ctx, obs, uniaxial):
                           {"kind": "not_fresnel_root", "swapped": swapped}, dict(rep, tolerance=tol))
         if not (nmin - tol <= vals["e"] <= vals["o"] + tol and vals["o"] <= nmax + tol):
             ctx.violation("S5", f"{o['id']}: indices {vals} are not ordered within [{nmin}, {nmax}]", {"kind": "bounds"}, rep)
-        # --- uniaxial closed form
-        if n[0] == n[1]:
+        # --- uniaxial closed form (the crystal's DECLARED class decides; a declared-uniaxial crystal with n_x != n_y is reported)
+        if uniaxial.get(o["id"]) and n[0] != n[1]:
+            ctx.violation("S5", f"{o['id']} is declared uniaxial but reports n_x = {float(n[0])!r} != n_y = {float(n[1])!r}", {"kind": "uniaxial_indices_differ"}, rep)
+        if uniaxial.get(o["id"], n[0] == n[1]) and n[0] == n[1]:
             pz = s[2] * s[2] / ex.P
             yu = hp.D(pz * ex.a[0] + (1 - pz) * ex.a[2])
             nu = 1 / yu.sqrt()
@@ -316,9 +318,9 @@ def correspondence(ctx, kept, walk_goals, budget):
         Dv = "(" + ", ".join(coq_hex(x) for x in o["d"]) + ")"
         ct, cp = coq_hex(o["ct"]), coq_hex(o["cp"])
         cid = f"f{len(goals)}"
-        goals.append((cid, f"Rabs (vx (to_crystal_frame_gen {ct} {cp} {Dv}) - {coq_hex(o['s'][0])}) <= 1e-15 /\\ "
-                           f"Rabs (vy (to_crystal_frame_gen {ct} {cp} {Dv}) - {coq_hex(o['s'][1])}) <= 1e-15 /\\ "
-                           f"Rabs (vz (to_crystal_frame_gen {ct} {cp} {Dv}) - {coq_hex(o['s'][2])}) <= 1e-15", "case_frame"))
+        goals.append((cid, f"Rabs (vx (to_crystal_frame_gen {ct} {cp} {Dv}) - {coq_hex(o['s'][0])}) <= 4e-15 /\\ "
+                           f"Rabs (vy (to_crystal_frame_gen {ct} {cp} {Dv}) - {coq_hex(o['s'][1])}) <= 4e-15 /\\ "
+                           f"Rabs (vz (to_crystal_frame_gen {ct} {cp} {Dv}) - {coq_hex(o['s'][2])}) <= 4e-15", "case_frame"))
         meta[cid] = ("frame", o)
         if ex.D >= 1e-6:
             tol = coq_q(Fraction(ex.tol()).limit_denominator(10**18))
@@ -459,7 +461,7 @@ def run(ctx):
         "unchanged under reversal / principal-plane mirrors": "proved",
         "uniaxial: n_o and 1/n^2 = cos^2/no^2 + sin^2/ne^2": "proved",
         "pump along z gets crystal-frame polar angles (theta, phi)": "proved (nalgebra's Euler matrix is transcribed, checked by interval goals)",
-        "walk-off = atan(-(1/n) dn/dtheta), uniaxial closed form, sign, zero at 90 deg": "proved_partial (exact derivative; the central-difference error is measured to 1e-6 rad, not proved)",
+        "walk-off = atan(-(1/n) dn/dtheta), uniaxial closed form within 1e-6 rad, sign, zero at 90 deg": "proved_partial: real arithmetic proved for |crystal theta| <= 90 deg over the whole index box [1,4]^2 and up to 180 deg for |1/no^2 - 1/ne^2| <= 0.7 (C02_walkoff_1e6_real, _wide_partial; the property's domain is the axis-to-BEAM angle, so crystal angles 90..180 deg are inside it); binary64 rounding of the difference quotient measured, not proved; derivative existence proved (C02_walkoff_derivative_exists)",
         "walk-off finite for every orientation": "proved over R (step > 0, n > 0); binary64 validated (near-axis orientations included)",
         "Beam::refractive_index wrapper": "structure checked by the generator + bit-exact Rust-vs-Rust comparison"}
     return finish(ctx, assumptions=[
